@@ -30,13 +30,24 @@
     select_only_id_ok selects_only_id filler_unnamed_unchanged filler_unnamed_id
     filler_start_events filler_text_events
     filler_empty_id filler_only_value_attrs_partial filler_no_text_change_partial
-    filler_wellnested_partial filler_fills_given_partial filler_checks_given filler_selects_given
-    filler_fills_textarea_partial filler_no_passwords
+    filler_wellnested_partial filler_fills_given filler_checks_given filler_selects_given
+    filler_textarea_end_writes_value filler_no_passwords
     filler_option_children_moved filler_textarea_none_erased
+    filler_confined_partial filler_confined_stream_partial filler_input_confined filler_option_confined
+    filler_fills_textarea filler_nested_form_unfilled
+    buffer_feedback_diverges buffer_two_writers_ill_nested
+    lazy_agrees_stagewise lazy_chain_wellnested
+    trace_changes_nothing map_text_changes_only_selected_text map_text_preserves_wellnested
+    sanitizer_wellnested translator_wellnested
+    apply_leaves_origin apply_appends_one_link history_keeps_chains
 -/
 import Genshi.Lemmas.TfSegs2
 import Genshi.Lemmas.TfChains
 import Genshi.Lemmas.TfFill
+import Genshi.Lemmas.TfFillSpec
+import Genshi.Lemmas.TfLazyDiv
+import Genshi.Lemmas.TfLazyAgree
+import Genshi.Lemmas.TfOther
 namespace Genshi.Props.C20
 open Genshi Genshi.Tf
 
@@ -249,6 +260,45 @@ theorem map_preserves_wellnested (all : Bool) (p r : Str) (n : Nat) (s : MStream
   ⟨by unfold WellNested mapBang; rw [map_balance (mapBangEv_effPres all)]; exact hwn,
    by unfold WellNested substitute; rw [map_balance (substEv_effPres p r n)]; exact hwn⟩
 
+/-- trace() prints the items and passes them on: nothing changes. -/
+theorem trace_changes_nothing (b : Bufs) (s : MStream) : applyOp b .trace s = some (s, b) := rfl
+
+/-- map(f, TEXT), for ANY function `f` on text data: the stream keeps its length and its marks; an item
+    that is unmarked or not a TEXT event is unchanged; a marked TEXT event gets `f` of its data. -/
+theorem map_text_changes_only_selected_text (f : Str → Bool → Str × Bool) (s : MStream) :
+    mapText f s = s.map (mapTextEv f) ∧
+    (∀ p : MItem, (mapTextEv f p).1 = p.1) ∧
+    (∀ x : MEv, mapTextEv f (none, x) = (none, x)) ∧
+    (∀ (m : Option Mark) (x : MEv), (∀ t sf, x ≠ .ev (.text t sf)) → mapTextEv f (m, x) = (m, x)) ∧
+    (∀ (m : Mark) t sf, mapTextEv f (some m, .ev (.text t sf)) = (some m, .ev (.text (f t sf).1 (f t sf).2))) := by
+  refine ⟨rfl, ?_, fun x => rfl, ?_, fun m t sf => rfl⟩
+  · rintro ⟨_ | m, x⟩
+    · rfl
+    · cases x with
+      | ev e => cases e <;> rfl
+      | _ => rfl
+  · intro m x hx
+    cases m with
+    | none => rfl
+    | some m =>
+      cases x with
+      | ev e =>
+        cases e with
+        | text t sf => exact absurd rfl (hx t sf)
+        | _ => rfl
+      | _ => rfl
+
+theorem map_text_preserves_wellnested (f : Str → Bool → Str × Bool) {s : MStream} (hg : Good s)
+    (hwn : WellNested (unmark s)) : WellNested (unmark (mapText f s)) ∧ Good (mapText f s) :=
+  ⟨by unfold WellNested mapText; rw [map_balance (mapTextEv_effPres f)]; exact hwn,
+   map_good (mapTextEv_effPres f) hg⟩
+
+example : mapText (fun t _ => (t.reverse, false))
+    [(none, .ev (.text ['a', 'b'] false)), (some .outside, .ev (.text ['a', 'b'] true)),
+      (some .outside, .ev (.comment ['a', 'b']))] =
+    [(none, .ev (.text ['a', 'b'] false)), (some .outside, .ev (.text ['b', 'a'] false)),
+      (some .outside, .ev (.comment ['a', 'b']))] := by decide
+
 /-- filter(f) for any stream filter `f` that keeps balanced input balanced (`FOk f`): each
     contiguous selection is replaced by `f` of it, marked OUTSIDE — well nested and `Good`. -/
 theorem filter_preserves_wellnested (f : List MEv → List MEv) (hf : FOk f) {s : MStream} (hg : Good s)
@@ -346,6 +396,129 @@ theorem attr_wrap_emits_empty_wrapper :
     some [.start (qn 'r') [], .start (qn 'w') [], .end_ (qn 'w'), .start (qn 'a') [(qn 'x', ['1'])],
       .end_ (qn 'a'), .end_ (qn 'r')] := by decide
 
+/-! ## derived transformers (`Transformer.apply`) -/
+
+/-- Deriving a transformer leaves every transformer built before — in particular the one it is
+    derived from — as it was: a transformer that only selects stays one that only selects. -/
+theorem apply_leaves_origin {α : Type} (h : List (List α)) (k : Nat) (x : α) (i : Nat) (hi : i < h.length) :
+    (derive h k x)[i]? = h[i]? := by
+  simp [derive, List.getElem?_append_left hi]
+
+/-- … and the new transformer is its origin's chain plus the one new link. -/
+theorem apply_appends_one_link {α : Type} (h : List (List α)) (k : Nat) (x : α) :
+    (derive h k x)[h.length]? = some (h.getD k [] ++ [x]) ∧ (derive h k x).length = h.length + 1 := by
+  simp [derive]
+
+/-- Over a whole history of derivations: every snapshot extends the previous one, nothing is ever
+    changed (the chains of the first `h.length` objects are `h` in every snapshot). -/
+theorem history_keeps_chains {α : Type} : ∀ (ds : List (Nat × α)) (h : List (List α)) (snap : List (List α)),
+    snap ∈ history h ds → snap.take h.length = h := by
+  intro ds
+  induction ds with
+  | nil => intro h snap hm; simp [history] at hm
+  | cons d ds ih =>
+    intro h snap hm
+    obtain ⟨k, x⟩ := d
+    simp only [history, List.mem_cons] at hm
+    rcases hm with rfl | hm
+    · simp [derive]
+    · have := ih (derive h k x) snap hm
+      have hl : (derive h k x).length = h.length + 1 := by simp [derive]
+      have h2 : snap.take h.length = (snap.take (derive h k x).length).take h.length := by
+        rw [List.take_take]; congr 1; omega
+      rw [h2, this]; simp [derive]
+
+example : history [[0]] [(0, 1), (0, 2), (1, 3)] =
+    [[[0], [0, 1]], [[0], [0, 1], [0, 2]], [[0], [0, 1], [0, 2], [0, 1, 3]]] := by decide
+
+/-! ## the chain as the code runs it: lazily interleaved links (`Model/TfLazy.lean`) -/
+
+/-- The lazily evaluated chain (`runLazy`: every link a transducer, items pushed through the links
+    one at a time, buffers shared and injected from their live content) gives exactly what the
+    stage-wise reading `runChain` gives — the same marked stream, the same buffers, failure exactly
+    when it fails, for every fuel `F` — for EVERY chain in which, between two `buffer()` barriers,
+    no buffer is written twice or read by an injector and written (`stagewise`; the driver decides
+    it per chain).  So every theorem about `runChain` / `transform` above is a theorem about the chain
+    as the code runs it; the two findings below are exactly the two ways to leave `stagewise`. -/
+theorem lazy_agrees_stagewise (F : Nat) (ops : List Op) (b : Bufs) (s : MStream)
+    (h : stagewise [] [] ops = true) :
+    (runLazy F ops (ofBufs b) s).toOption = (runChain ops b s).map fun r => (r.1, ofBufs r.2) :=
+  lazy_agrees F ops b s h
+
+/-- `chain_wellnested` for the chain as the code runs it. -/
+theorem lazy_chain_wellnested (F : Nat) (ops : List Op) (s : Stream) (hs : WellNested s)
+    (hst : stagewise [] [] ops = true) (hadm : Admissible true ops)
+    (hsel : chainSelOk ops [] (markAll s) = true) (out : MStream) (b : BufF)
+    (h : runLazy F ops (fun _ => []) (markAll s) = .ok (out, b)) : WellNested (unmark out) := by
+  have h0 : ofBufs [] = fun _ => [] := by funext i; simp [ofBufs, Bufs.get]
+  have := lazy_agrees F ops [] (markAll s) hst
+  rw [h0, h] at this
+  simp only [Out.toOption, liftRes] at this
+  cases hr : runChain ops [] (markAll s) with
+  | none => simp [hr] at this
+  | some r =>
+    simp only [hr, Option.map_some, Option.some.injEq, Prod.mk.injEq] at this
+    exact chain_wellnested ops s hs hadm hsel (unmark out) (by simp [transform, transformMarked, hr, this.1])
+
+/-- non-vacuity: the cut / barrier / append chain of the example above is `stagewise`, and the lazy
+    model runs it to the same output -/
+example :
+    stagewise [] [] [.select [.none, .none, .hit, .none], .cut 0 false, .endSel, .buffer,
+      .select [.none, .hit, .none, .none], .append (.buf 0)] = true ∧
+    (match runLazy 0 [.select [.none, .none, .hit, .none], .cut 0 false, .endSel, .buffer,
+        .select [.none, .hit, .none, .none], .append (.buf 0)] (fun _ => [])
+        (markAll [.start (qn 'r') [], .start (qn 'a') [], .end_ (qn 'a'), .start (qn 'b') [], .end_ (qn 'b'),
+          .end_ (qn 'r')]) with
+      | .ok (o, _) => some (unmark o)
+      | _ => none) =
+    some [.start (qn 'r') [], .start (qn 'a') [], .start (qn 'b') [], .end_ (qn 'b'), .end_ (qn 'a'),
+      .end_ (qn 'r')] := by decide
+
+/-- Known finding C20-buffer-feedback: `Transformer('a').copy(b).append(b).copy(b, accumulate=True)` on
+    `<r><a/></r>` does not terminate — for EVERY fuel the lazy model runs out of it: `append(b)`
+    iterates the live event list of `b` while the accumulate-copy after it, in the middle of the
+    selection `<a>…</a>`, appends every injected event to `b`. -/
+theorem buffer_feedback_diverges (F : Nat) : runLazy F fbOps (fun _ => []) (markAll fbDoc) = .div :=
+  feedback_diverges F
+
+/-- the unmarked output of the lazily evaluated chain -/
+def lazyOut (F : Nat) (ops : List Op) (s : Stream) : Option Stream :=
+  match runLazy F ops (fun _ => []) (markAll s) with
+  | .ok (o, _) => some (unmark o)
+  | _ => none
+
+/-- Known finding C20-buffer-two-writers: `Transformer('a').cut(b).end().cut(b, accumulate=True).after(b)`
+    on `<r><a/></r>`: the two cuts run interleaved, the first resets `b` under the second, which ends
+    up holding `<a></a></r>`; injecting it is ill nested. (The stage-wise reading of the same chain
+    is well nested: the interleaving is what breaks it.) -/
+theorem buffer_two_writers_ill_nested :
+    ∃ out, lazyOut 0 [.select [.none, .hit, .none], .cut 0 false, .endSel, .cut 0 true, .after (.buf 0)]
+      [.start (qn 'r') [], .start (qn 'a') [], .end_ (qn 'a'), .end_ (qn 'r')] = some out ∧ ¬ WellNested out :=
+  ⟨[.start (qn 'a') [], .end_ (qn 'a'), .end_ (qn 'r')], by decide, by decide⟩
+
+/-! ## the other built-in stream filters: well-nestedness theorems of their owners, re-used
+
+  One obligation per filter the property names: the Transformer (`chain_wellnested`,
+  `lazy_chain_wellnested`), the HTMLFormFiller (`filler_wellnested_partial`, `filler_confined_partial`), the
+  sanitizer and the translation filter below.  The serializers' internal filters (EmptyTagFilter,
+  NamespaceFlattener, WhitespaceFilter, DocTypeInserter) are stated by C08/C09 on their own event types as
+  "flattening of a forest ↦ an explicit function of the forest" (`Genshi.Output.emptyTag_flattenList`,
+  `filtered_forest`); no `balance` is defined for those types, the oracle checks nesting in → out on the
+  real code (notes/C20.md, open end 1). -/
+
+/-- HTMLSanitizer (owner: C06, `Genshi.San.wellNested_sanitize`). -/
+theorem sanitizer_wellnested {cfg : Genshi.San.Cfg} {s o : Stream} (hs : WellNested s)
+    (h : Genshi.San.sanitize cfg s = .ok o) : WellNested o := Genshi.San.wellNested_sanitize hs h
+
+/-- Translator (owner: C19, `Genshi.I18n.trList_nodes`: the pass is a tree homomorphism): on the
+    flattening of any forest, for every catalogue, context and flags, the START/END skeleton of the
+    output is well nested. -/
+theorem translator_wellnested (cfg : Genshi.I18n.Cfg) (cat : Genshi.I18n.Catalog) (ctx : Genshi.I18n.Ctx)
+    (tt ta : Bool) (ns : List Genshi.I18n.TNode) (h : Genshi.I18n.okNodes ns = true) :
+    WellNested (Genshi.I18n.tTags (Genshi.I18n.flattenNodes ns)) ∧
+    WellNested (Genshi.I18n.tTags (Genshi.I18n.trList cfg cat ctx tt ta 0 (Genshi.I18n.flattenNodes ns))) :=
+  Genshi.I18n.translate_wellNested cfg cat ctx tt ta ns h
+
 /-! ## the form filler -/
 
 open Genshi.Fill
@@ -381,9 +554,9 @@ theorem filler_wellnested_partial (c : Cfg) (s out : Stream) (hopt : optText fal
 
 /-- Fills what it is given, text-like inputs: an input of type text / hidden / none (or
     password when asked) whose name has a value in the data comes out with `value` = that value
-    (`_partial`: a value `None` — or an empty list — is "nothing given"; for a textarea it
-    nevertheless erases the content, known finding C20-textarea-none). -/
-theorem filler_fills_given_partial (c : Cfg) (a : AttrList) (name : Str) (value : Val) (v : Scalar)
+    (a value `None` — or an empty list — is "nothing given": `firstOf`).  Every `input` START
+    inside the selected form is passed through `inputAttrs` (`filler_confined_partial`). -/
+theorem filler_fills_given (c : Cfg) (a : AttrList) (name : Str) (value : Val) (v : Scalar)
     (ht : inputType a = [] ∨ inputType a = sHidden ∨ inputType a = sText ∨
       (inputType a = sPassword ∧ c.passwords = true))
     (hn : aget a sName = some name) (hne : name.isEmpty = false) (hl : c.lookup name = some value)
@@ -421,8 +594,8 @@ theorem filler_selects_given (c : Cfg) (st : St) (tag ot : QName) (oa : AttrList
       simpa [hsel'] using hh
 
 /-- At the END of a textarea named in the data the given value is written as its text
-    (`_partial`: `None` writes nothing although the old content was dropped — C20-textarea-none). -/
-theorem filler_fills_textarea_partial (c : Cfg) (st : St) (tag : QName) (v : Scalar)
+    (state level; the stream-level statement is `filler_confined_partial` + `filler_fills_textarea`). -/
+theorem filler_textarea_end_writes_value (c : Cfg) (st : St) (tag : QName) (v : Scalar)
     (hF : st.inForm = true) (hT : st.inTextarea = true) (ht : tag.loc = sTextarea)
     (hS : st.inSelect = false) (hv : st.textareaValue = some v) (hne : v.text.isEmpty = false) :
     (step c st (.end_ tag)).map (·.2) = some [.text v.text false, .end_ tag] := by
@@ -531,6 +704,93 @@ theorem filler_textarea_none_erased :
        .end_ ⟨[], sTextarea⟩, .end_ ⟨[], sForm⟩] =
     some [.start ⟨[], sForm⟩ [], .start ⟨[], sTextarea⟩ [(⟨[], sName⟩, ['t'])],
        .end_ ⟨[], sTextarea⟩, .end_ ⟨[], sForm⟩] := by decide
+
+/-! ### the filler against its documentation semantics, stream level -/
+
+/-
+  Full statement: on every well-nested stream the form filler changes nothing but value / checked /
+  selected attributes and textarea content of controls named in its data, and fills what it is given.
+
+  `fillSpec` (`Model/TfFillSpec.lean`) is that sentence as a function on forests: it walks the
+  tree with the context "inside the selected form / below a select named in the data" and rewrites
+  exactly three things — the attributes of an `input` in the form (`inputAttrs`: `filler_input_confined`,
+  `filler_fills_given`, `filler_checks_given`, `filler_no_passwords`, `filler_unnamed_unchanged`), the
+  attributes of an `option` below a select named in the data (`optionAttrs`: `filler_option_confined`)
+  and the children of a `textarea` named in the data (`textareaKids`: `filler_fills_textarea`).
+  Proved: the state machine of the code computes `fillSpec` on every forest in `okForest`, i.e. on
+  every forest outside the recorded findings:
+    * C20-option-children — an option below a select named in the data holds something else than text;
+    * C20-nested-controls — a form inside the selected form, a select inside a select named in the
+      data, an element inside a textarea named in the data (the code keeps flags, not depths:
+      witness `filler_nested_form_unfilled`).
+  (C20-textarea-none is inside the domain: `fillSpec` is bug-compatible there, `textareaKids` writes
+  nothing for `None`; `filler_fills_textarea` is about values that are given.)
+-/
+theorem filler_confined_partial (c : Cfg) (ns : List Node) (hok : okForest c ns = true) :
+    fill c (flattenList ns) = some (flattenList (fillSpec c ns)) := fill_spec c ns hok
+
+/-- … and every well-nested stream is such a flattening: `parse` reads it back into a forest. -/
+theorem filler_confined_stream_partial (c : Cfg) (s : Stream) (hwn : WellNested s) :
+    ∃ ns, parse s = some ns ∧ flattenList ns = s ∧
+      (okForest c ns = true → fill c s = some (flattenList (fillSpec c ns))) := by
+  obtain ⟨ns, hp, hf, _⟩ := parse_wellNested s hwn
+  exact ⟨ns, hp, hf, fun hok => by rw [← hf]; exact fill_spec c ns hok⟩
+
+/-- What `inputAttrs` may do to an input: nothing; or — the input is named in the data — change
+    `checked` only (checkbox / radio) or `value` only (other types; a password only when asked). -/
+theorem filler_input_confined (c : Cfg) (a : AttrList) :
+    inputAttrs c a = a ∨
+    (∃ name value, aget a sName = some name ∧ c.lookup name = some value ∧
+      ((inputType a = sCheckbox ∨ inputType a = sRadio) ∧ adel (inputAttrs c a) sChecked = adel a sChecked ∨
+       ¬ (inputType a = sPassword ∧ c.passwords = false) ∧ ¬ (inputType a = sCheckbox ∨ inputType a = sRadio) ∧
+         adel (inputAttrs c a) sValue = adel a sValue)) := inputAttrs_confined c a
+
+/-- What `optionAttrs` does to an option below a select named in the data (value `v`, a scalar or
+    a list): nothing but `selected` changes, and it is present exactly when the option's value — its
+    `value` attribute, else its text — is (among) the given value(s). -/
+theorem filler_option_confined (v : Val) (a : AttrList) (ks : List Node) :
+    adel (optionAttrs v a ks) sSelected = adel a sSelected ∧
+    ahas (optionAttrs v a ks) sSelected = isSelected (optionVal a ks) (some v) :=
+  ⟨optionAttrs_confined v a ks, optionAttrs_selected v a ks⟩
+
+/-- What `textareaKids` does to a textarea named in the data with a given value: its text is
+    the value, its other children are unchanged. -/
+theorem filler_fills_textarea (v : Val) (x : Scalar) (ks : List Node) (hf : firstOf v = some x) :
+    textOf (textareaKids v ks) = x.text ∧
+    (textareaKids v ks).filter (fun k => !isTextLeaf k) = ks.filter (fun k => !isTextLeaf k) :=
+  textareaKids_spec v x ks hf
+
+/-- non-vacuity: a form with a select (two values given), a checkbox and a textarea -/
+example :
+    let c : Cfg := ⟨none, none, [(['s'], .many [⟨['1'], true, false⟩, ⟨['x'], true, false⟩]),
+      (['t'], .one ⟨['v'], true, false⟩), (['k'], .one ⟨['o', 'n'], true, false⟩)], false⟩
+    let ns : List Node := [.elem ⟨[], sForm⟩ [] [
+      .elem ⟨[], sSelect⟩ [(⟨[], sName⟩, ['s'])] [
+        .elem ⟨[], sOption⟩ [(⟨[], sValue⟩, ['1'])] [.leaf (.text ['a'] false)],
+        .elem ⟨[], sOption⟩ [(⟨[], sSelected⟩, sSelected)] [.leaf (.text ['y'] false)],
+        .elem ⟨[], sOption⟩ [] [.leaf (.text ['x'] false)]],
+      .elem ⟨[], sInput⟩ [(⟨[], sType⟩, sCheckbox), (⟨[], sName⟩, ['k'])] [],
+      .elem ⟨[], sTextarea⟩ [(⟨[], sName⟩, ['t'])] [.leaf (.text ['o', 'l', 'd'] false)]]]
+    okForest c ns = true ∧
+    flattenList (fillSpec c ns) = flattenList [.elem ⟨[], sForm⟩ [] [
+      .elem ⟨[], sSelect⟩ [(⟨[], sName⟩, ['s'])] [
+        .elem ⟨[], sOption⟩ [(⟨[], sValue⟩, ['1']), (⟨[], sSelected⟩, sSelected)] [.leaf (.text ['a'] false)],
+        .elem ⟨[], sOption⟩ [] [.leaf (.text ['y'] false)],
+        .elem ⟨[], sOption⟩ [(⟨[], sSelected⟩, sSelected)] [.leaf (.text ['x'] false)]],
+      .elem ⟨[], sInput⟩ [(⟨[], sType⟩, sCheckbox), (⟨[], sName⟩, ['k']), (⟨[], sChecked⟩, sChecked)] [],
+      .elem ⟨[], sTextarea⟩ [(⟨[], sName⟩, ['t'])] [.leaf (.text ['v'] false)]]] := by decide
+
+/-- Known finding C20-nested-controls (outside `okForest`): the filler keeps flags, not depths.
+    `<form><form></form><input name="n"/></form>` with data `{'n': 'v'}`: the END of the inner form
+    ends the processing of the outer one, the input named in the data is not filled. -/
+theorem filler_nested_form_unfilled :
+    let c : Cfg := ⟨none, none, [(['n'], .one ⟨['v'], true, false⟩)], false⟩
+    let ns : List Node := [.elem ⟨[], sForm⟩ [] [.elem ⟨[], sForm⟩ [] [],
+      .elem ⟨[], sInput⟩ [(⟨[], sName⟩, ['n'])] []]]
+    fill c (flattenList ns) = some (flattenList ns) ∧ okForest c ns = false ∧
+    flattenList (fillSpec c ns) = [.start ⟨[], sForm⟩ [], .start ⟨[], sForm⟩ [], .end_ ⟨[], sForm⟩,
+      .start ⟨[], sInput⟩ [(⟨[], sName⟩, ['n']), (⟨[], sValue⟩, ['v'])], .end_ ⟨[], sInput⟩,
+      .end_ ⟨[], sForm⟩] := by decide
 
 /-- non-vacuity of the filler theorems: a form with a text input, data for it -/
 example : optText false [.start ⟨[], sForm⟩ [], .start ⟨[], sInput⟩ [(⟨[], sName⟩, ['n'])],
